@@ -1,6 +1,7 @@
 INIT Init
 NEXT Next
 CONSTANTS
+  Deep = FALSE
   CpsMode = TRUE
 INVARIANT PairParses
 INVARIANT Export
